@@ -450,7 +450,7 @@ def generate(rng, seed, tier='quick'):
         verb = 'register' if (not registered or rng.random() < 0.6) else 'unregister'
         if verb == 'register':
             while True:
-                pfx = [rng.choice(['a', 'b', 'c', 'd']) for _ in range(rng.randint(1, 3))]
+                pfx = [rng.choice(['a', 'b', 'c', 'd', 'seg=1', 'v=2', '%00', '32=x', 'KEY']) for _ in range(rng.randint(1, 3))]
                 if rng.random() < 0.08:
                     pfx = []            # the root prefix "/"
                 if tuple(pfx) not in used:
